@@ -8,23 +8,23 @@ package ref
 
 // MSM is a plain description of an MSM4 or MSM7 message.
 type MSM struct {
-	Type       int    `json:"type"`
-	StationID  uint   `json:"station"`
-	Timestamp  uint   `json:"ts"`
-	Multiple   bool   `json:"mm"`
-	IODS       uint   `json:"iods"`
-	SessTime   uint   `json:"sess"`
-	ClkSteer   uint   `json:"clk"`
-	ExtClk     uint   `json:"extclk"`
-	Smoothing  bool   `json:"smooth"`
-	SmoothInt  uint   `json:"smint"`
-	SatMask    uint64 `json:"satmask"`
-	SigMask    uint32 `json:"sigmask"`
-	CellMask   []bool `json:"cellmask"` // nsat*nsig, row major (satellite major)
-	Sats       []Sat  `json:"sats"`     // one per set bit of SatMask
-	Sigs       []Sig  `json:"sigs"`     // one per true in CellMask, in mask order
-	CellsSent  int    `json:"cells_sent"` // how many of Sigs are actually encoded (== len(Sigs) unless a continued message)
-	PadBytes   int    `json:"pad"`
+	Type      int    `json:"type"`
+	StationID uint   `json:"station"`
+	Timestamp uint   `json:"ts"`
+	Multiple  bool   `json:"mm"`
+	IODS      uint   `json:"iods"`
+	SessTime  uint   `json:"sess"`
+	ClkSteer  uint   `json:"clk"`
+	ExtClk    uint   `json:"extclk"`
+	Smoothing bool   `json:"smooth"`
+	SmoothInt uint   `json:"smint"`
+	SatMask   uint64 `json:"satmask"`
+	SigMask   uint32 `json:"sigmask"`
+	CellMask  []bool `json:"cellmask"`   // nsat*nsig, row major (satellite major)
+	Sats      []Sat  `json:"sats"`       // one per set bit of SatMask
+	Sigs      []Sig  `json:"sigs"`       // one per true in CellMask, in mask order
+	CellsSent int    `json:"cells_sent"` // how many of Sigs are actually encoded (== len(Sigs) unless a continued message)
+	PadBytes  int    `json:"pad"`
 }
 
 // Sat is a satellite cell.  Ext and Rate are MSM7 only.
@@ -206,16 +206,16 @@ func MSMBits(m *MSM) int {
 
 // Base is a 1005 or 1006 message.
 type Base struct {
-	Type      int   `json:"type"`
-	StationID uint  `json:"station"`
-	ITRF      uint  `json:"itrf"`
-	Ign1      uint  `json:"i1"`
-	X         int64 `json:"x"`
-	Ign2      uint  `json:"i2"`
-	Y         int64 `json:"y"`
-	Ign3      uint  `json:"i3"`
-	Z         int64 `json:"z"`
-	Height    uint  `json:"h"`
+	Type      int    `json:"type"`
+	StationID uint   `json:"station"`
+	ITRF      uint   `json:"itrf"`
+	Ign1      uint   `json:"i1"`
+	X         int64  `json:"x"`
+	Ign2      uint   `json:"i2"`
+	Y         int64  `json:"y"`
+	Ign3      uint   `json:"i3"`
+	Z         int64  `json:"z"`
+	Height    uint   `json:"h"`
 	Trailing  []byte `json:"trail,omitempty"`
 }
 
@@ -238,4 +238,28 @@ func EncodeBase(b *Base, typeField int) []byte {
 	out := w.Bytes()
 	out = append(out, b.Trailing...)
 	return out
+}
+
+// FixIllegalTime gives the message a timestamp outside its legal range: 7 days of
+// milliseconds or more; for GLONASS day 7 or 24 h of milliseconds or more.
+func (m *MSM) FixIllegalTime(r *SplitMix64) {
+	if ConstellationOf(m.Type) == "Glonass" {
+		switch r.Intn(3) {
+		case 0:
+			m.Timestamp = 7<<27 | uint(r.Intn(86400000))
+		case 1:
+			m.Timestamp = uint(r.Intn(7))<<27 | uint(r.Range(86400000, 1<<27-1))
+		default:
+			m.Timestamp = uint(r.Intn(7))<<27 | 86400000
+		}
+		return
+	}
+	switch r.Intn(3) {
+	case 0:
+		m.Timestamp = 604800000
+	case 1:
+		m.Timestamp = 1<<30 - 1
+	default:
+		m.Timestamp = uint(r.Range(604800000, 1<<30-1))
+	}
 }
